@@ -25,8 +25,14 @@ def line_budget(n, k, heap, sites):
 @st.composite
 def cases(draw, tier):
     kmax = 3 if tier == "quick" else 4
-    source = draw(st.sampled_from(["arcs", "coding", "generated"]))
-    if source == "coding":
+    source = draw(st.sampled_from(["arcs", "coding", "generated"] * 8 + ["large_k"]))
+    if source == "large_k":
+        # the observed lengths used in practice: vertex indices beyond 2^15 (order 8) on a dense random arc subset
+        k = draw(st.sampled_from([6, 8, 8]))
+        big = random.Random(draw(st.integers(0, 2 ** 32 - 1)))
+        graph = {"k": k, "rows": [big.choice([15, 15, 7, 11, 13, 14, 5, 10]) for _ in range(4 ** k)],
+                 "start": big.randrange(4 ** k)}
+    elif source == "coding":
         graph = draw(gens.coding_graphs(1, kmax, weights={1: 2, 2: 4, 3: 4, 4: 2}))
     elif source == "generated":
         spec = draw(gens.generated_graphs(1, kmax, {1: 2, 2: 4, 3: 4, 4: 2}))
@@ -38,10 +44,24 @@ def cases(draw, tier):
     k, rows, start = graph["k"], graph["rows"], graph["start"]
     rng = random.Random(draw(st.integers(0, 2 ** 32 - 1)))
     kind = draw(st.sampled_from(["edits", "edits", "first_bad", "last_window", "last_symbol", "length_k", "random",
-                                 "many_sites", "many_sites"]))
+                                 "many_sites", "many_sites", "many_unique_sites"]))
+    if kind == "many_unique_sites" and source != "large_k":
+        # a sparse threshold-1 graph (mostly out-degree 1): dozens of separated substitutions, each with few repairs,
+        # so the candidate product stays below the heap limit and the product path runs with 65+ fragments
+        spec = draw(gens.generated_graphs(3, 4, {3: 1, 4: 2}, thresholds=(1,)))
+        sparse = random.Random(draw(st.integers(0, 2 ** 32 - 1)))
+        bits = [int(c) if sparse.random() < 0.45 else 0 for c in spec["mask"]]
+        kept, _, _ = o.largest_closed_subgraph({i for i, b in enumerate(bits) if b}, spec["k"], 1)
+        if kept:
+            rows = o.rows_from_mask(kept, spec["k"])
+            starts = sorted(kept)
+            graph = {"k": spec["k"], "rows": rows, "start": starts[draw(st.integers(0, len(starts) - 1))]}
+            k, rows, start = graph["k"], graph["rows"], graph["start"]
     walk = draw(gens.walks(graph, start, k, 48 if tier == "quick" else 120))
     if kind == "many_sites":
         walk = draw(gens.walks(graph, start, 150, 420 if tier == "quick" else 900))
+    if kind == "many_unique_sites":
+        walk = draw(gens.walks(graph, start, 70 * (3 * k + 3), 95 * (3 * k + 3)))
     text = walk
     if kind == "edits":
         text = draw(gens.edits(walk, draw(st.integers(1, 8))))
@@ -61,7 +81,7 @@ def cases(draw, tier):
         text = "".join(rng.choice("ACGT") for _ in range(k))
     elif kind == "random":
         text = "".join(rng.choice("ACGT") for _ in range(rng.randrange(k, 60)))
-    elif kind == "many_sites":
+    elif kind in ("many_sites", "many_unique_sites"):
         pos, out = k + rng.randrange(3), list(walk)
         step = rng.choice([3 * k + 2, 3 * k + 3, 4 * k + 4])
         while pos < len(out) - 2 * k:
@@ -71,8 +91,9 @@ def cases(draw, tier):
     if len(text) < k:
         text = (text + "ACGT" * k)[:k]
     return {"graph": graph, "text": text, "kind": kind,
-            "check_len": draw(st.sampled_from([0, 0, 3, 6])), "indel": draw(st.booleans()),
-            "heap": draw(st.sampled_from([1, 10, 1000, 1000, 10 ** 4]))}
+            "check_len": draw(st.sampled_from([0, 0, 3, 6])), "indel": draw(st.booleans()) and kind != "many_unique_sites",
+            "heap": 10 ** 4 if kind == "many_unique_sites" else draw(st.sampled_from(
+                [1, 10, 1000, 1000, 10 ** 4, "inf" if kind in ("first_bad", "length_k", "last_symbol") else 10]))}
 
 
 def evaluate(case):
@@ -85,13 +106,14 @@ def evaluate(case):
     check = o.ref_vt(text[::-1], case["check_len"]) if case["check_len"] else None
     walk = o.is_walk(rows, k, start, text)
     sites = n // (k + 1) + 1
-    budget_lines = line_budget(n, k, case["heap"], sites)
+    heap = float(case["heap"])
+    budget_lines = line_budget(n, k, heap, sites)
     result, lookups, lines = repairing.run_repair(rows, k, start, text, check=check, has_indel=case["indel"],
-                                                  heap_size=case["heap"], line_budget=budget_lines)
+                                                  heap_size=heap, line_budget=budget_lines)
     labels = ["kind:" + case["kind"], "walk" if walk else "not_walk", "k=%d" % k,
               "len>=150" if n >= 150 else "len<150"]
     what = "repair_dna(%r, k=%d, start=%d, check=%r, has_indel=%s, heap_size=%g)" \
-           % (text if n <= 80 else text[:80] + "..[%d nt]" % n, k, start, check, case["indel"], case["heap"])
+           % (text if n <= 80 else text[:80] + "..[%d nt]" % n, k, start, check, case["indel"], heap)
     if result == "BUDGET":
         return bad("%s did not return within %d accessor look-ups" % (what, lookups), labels)
     if result == "STEPS":
@@ -104,6 +126,10 @@ def evaluate(case):
     labels.append("line_use:%s" % bucket(lines / float(budget_lines)))
     if result[1][0] >= 30:
         labels.append("sites>=30")
+    if result[1][0] >= 65:
+        labels.append("product_path_sites>=65")
+    if heap == float("inf"):
+        labels.append("heap=inf")
     first = o.walk_states(rows, k, start, text[:1])
     if not first:
         labels.append("first_nucleotide_not_an_arc")
@@ -117,8 +143,9 @@ def bucket(fraction):
 SUBCHECKS = [
     SubCheck("always_returns", evaluate, strategy=cases, examples=(4000, 40000), shards=(16, 16),
              floors={"first_nucleotide_not_an_arc": 200, "kind:last_symbol": 200, "kind:last_window": 200,
-                     "kind:length_k": 200, "kind:many_sites": 300, "not_walk": 1500}, rule=RULE, timeout=120.0),
-    SubCheck("fuzz_always_returns", evaluate, fuzz=("C10", (4000, 250000)), shards=(2, 8),
+                     "kind:length_k": 200, "kind:many_sites": 300, "not_walk": 1500, "k=8": 40, "heap=inf": 60,
+                     "product_path_sites>=65": 15}, rule=RULE, timeout=120.0),
+    SubCheck("fuzz_always_returns", evaluate, fuzz=("C10", (1500, 150000)), shards=(2, 8),
              rule="atheris/libFuzzer campaign: bytes are decoded into (graph from a pool of 64 arc subsets, start "
                   "vertex, string, options) and judged by the same oracle as the Hypothesis sub-check; coverage "
                   "feedback from dsw only; even shards start from an empty corpus, odd shards from 48 random inputs",
